@@ -600,6 +600,47 @@ pub fn run(ctx: &Ctx) -> i32 {
     if let Some((case, f)) = res {
         report(ctx, &rec, "skip", &case, &f);
     }
+    // containers of things that occupy the fewest bytes their type can (empty maps are one byte
+    // under compact, empty structs one byte everywhere, empty lists / strings little more), with
+    // nothing or very little behind them: a size bound derived from a wrong minimum width shows here
+    {
+        let empties: Vec<(&str, TT, TVal)> = vec![
+            ("empty map", TT::Map, TVal::Map(TT::I32, TT::I32, vec![])),
+            ("empty struct", TT::Struct, TVal::Struct(vec![])),
+            ("empty list", TT::List, TVal::List(TT::I8, vec![])),
+            ("empty set", TT::Set, TVal::Set(TT::Binary, vec![])),
+            ("empty string", TT::Binary, TVal::Binary(vec![])),
+            ("false", TT::Bool, TVal::Bool(false)),
+        ];
+        let mut reported = std::collections::BTreeSet::new();
+        for (name, et, ev) in &empties {
+            for n in [1usize, 2, 3, 5, 8, 14, 15, 16, 40] {
+                let mut shapes: Vec<(String, TVal)> = vec![
+                    (format!("list of {} x {}", n, name), TVal::List(*et, vec![ev.clone(); n])),
+                    (format!("set of {} x {}", n, name), TVal::Set(*et, vec![ev.clone(); n])),
+                    (format!("map i8 -> {} x {}", name, n), TVal::Map(TT::I8, *et, (0..n).map(|i| (TVal::I8(i as i8), ev.clone())).collect())),
+                ];
+                if matches!(et, TT::Binary | TT::Struct) {
+                    shapes.push((format!("map {} -> i8 x {}", name, n), TVal::Map(*et, TT::I8, (0..n).map(|i| (ev.clone(), TVal::I8(i as i8))).collect())));
+                }
+                for (what, v) in shapes {
+                    for (next, sentinel) in [(TVal::Bool(true), vec![]), (TVal::I8(1), vec![0u8]), (TVal::Binary(b"ab".to_vec()), vec![1, 2, 3])] {
+                        let c = Case { skipped: v.clone(), next, id1: 1, id2: 2, sentinel };
+                        {
+                            let mut r = rec.borrow_mut();
+                            r.case(fp(&c), true, || json!({"skipped": what, "next": format!("{:?}", c.next)}));
+                            r.class("container of minimal elements");
+                        }
+                        if let Err(f) = check_case(&c) {
+                            if reported.insert(f.key.clone()) {
+                                report(ctx, &rec, "skip", &c, &f);
+                            }
+                        }
+                    }
+                }
+            }
+        }
+    }
     // containers with more elements than fit a 16-bit counter (and around that border), of
     // variable-width elements so that no fixed-size fast path applies
     {
